@@ -76,6 +76,7 @@ Proof.
     try (split; assumption).
   all: split; unfold tokens; projs; try exact I; try (small; fail).
   all: try (tok Htok; fail).
+  all: try (repeat match goal with H : ?x = true |- context [?x] => rewrite H end; rewrite ?orb_true_r; reflexivity).
   all: intros D; try (specialize (Hconn D)); try discriminate; try assumption; try congruence.
 Qed.
 
@@ -104,10 +105,10 @@ Qed.
    strictly closer to returning: for every setting of the other two switches, provided the wait
    for the configuration is guarded *)
 Lemma start_progress sw s :
-  wait_cfg_unguarded sw = false -> wf sw s -> start_pending s = true ->
+  wait_cfg_unguarded sw = false -> results_sent sw -> wf sw s -> start_pending s = true ->
   enabled_env sw s <> [] /\ forall a, In a (enabled_env sw s) -> rank (step sw s a) < rank s.
 Proof.
-  intros G [_ _ _ Hconn _ _].
+  intros G [U1 [U2 U3]] [_ _ _ Hconn _ _].
   destruct s as [gen0 st0 conn0 ph0 cli0 pend0 closer0 fired0 est0 wait0 last0]. projs.
   unfold start_pending, enabled_env, rank. projs.
   destruct ph0; try discriminate; intros _.
@@ -117,34 +118,40 @@ Proof.
     + intros a [<-|[<-|[<-|[<-|[]]]]]; cbn [step ph sconn]; rewrite ?L; unfold fail_start, set_ph; cbn; lia.
     + intros a [<-|[<-|[]]]; cbn [step ph]; unfold fail_start; cbn; lia.
   - rewrite (Hconn G). split; [discriminate|].
-    intros a [<-|[<-|[<-|[]]]]; cbn [step ph sconn]; rewrite ?(Hconn G), ?G; unfold fail_start; cbn; lia.
+    intros a [<-|[<-|[<-|[<-|[]]]]]; cbn [step ph sconn]; rewrite ?(Hconn G), ?G, ?U1, ?U2, ?U3;
+      unfold fail_start; cbn; lia.
+  - rewrite U1, U2, U3 in Hconn. discriminate.
 Qed.
 
-(* what holds whatever the switches are: the only way a pending Start can get stuck is a lost
-   connection while it waits for the configuration *)
+(* what holds whatever the switches are: a pending Start can get stuck in two ways only: a lost
+   connection while it waits for the configuration (and the wait is unguarded), or a Configure that
+   ended without handing its result over *)
 Lemma start_progress_partial sw s :
   wf sw s -> start_pending s = true ->
-  (enabled_env sw s = [] <-> ph s = AwaitConfigure /\ conn_live (sconn s) = false) /\
+  (enabled_env sw s = [] <-> (ph s = AwaitConfigure /\ conn_live (sconn s) = false) \/ ph s = AwaitLost) /\
   forall a, In a (enabled_env sw s) ->
-    rank (step sw s a) < rank s \/ (a = EConnLost /\ ph s = AwaitConfigure /\ wait_cfg_unguarded sw = true).
+    rank (step sw s a) < rank s \/ (a = EConnLost /\ ph s = AwaitConfigure /\ wait_cfg_unguarded sw = true) \/
+    ph (step sw s a) = AwaitLost.
 Proof.
   intros _.
   destruct s as [gen0 st0 conn0 ph0 cli0 pend0 closer0 fired0 est0 wait0 last0]. projs.
   unfold start_pending, enabled_env, rank. projs.
   destruct ph0; try discriminate; intros _.
-  - split; [split; [discriminate|intros [X _]; discriminate]|]. intros a [<-|[<-|[]]]; left; cbn; lia.
-  - split; [split; [discriminate|intros [X _]; discriminate]|].
+  - split; [split; [discriminate|intros [[X _]|X]; discriminate]|]. intros a [<-|[<-|[]]]; left; cbn; lia.
+  - split; [split; [discriminate|intros [[X _]|X]; discriminate]|].
     intros a [<-|[<-|[]]]; left; cbn; unfold fail_start; cbn; lia.
-  - destruct (conn_live conn0) eqn:L; (split; [split; [discriminate|intros [X _]; discriminate]|]).
+  - destruct (conn_live conn0) eqn:L; (split; [split; [discriminate|intros [[X _]|X]; discriminate]|]).
     + intros a [<-|[<-|[<-|[<-|[]]]]]; left; cbn [step ph sconn]; rewrite ?L; unfold fail_start, set_ph; cbn; lia.
     + intros a [<-|[<-|[]]]; left; cbn [step ph]; unfold fail_start; cbn; lia.
   - destruct (conn_live conn0) eqn:L.
-    + split; [split; [discriminate|intros [_ X]; discriminate]|].
-      intros a [<-|[<-|[<-|[]]]]; cbn [step ph sconn]; rewrite ?L.
-      * left. cbn. lia.
-      * left. unfold fail_start. cbn. lia.
-      * destruct (wait_cfg_unguarded sw) eqn:G; [right; auto|left; unfold fail_start; cbn; lia].
+    + split; [split; [discriminate|intros [[_ X]|X]; discriminate]|].
+      intros a [<-|[<-|[<-|[<-|[]]]]]; cbn [step ph sconn]; rewrite ?L.
+      * destruct (cfg_ok_unsent sw); [right; right; reflexivity|left; cbn; lia].
+      * destruct (cfg_hookerr_unsent sw); [right; right; reflexivity|left; unfold fail_start; cbn; lia].
+      * destruct (cfg_reject_unsent sw); [right; right; reflexivity|left; unfold fail_start; cbn; lia].
+      * destruct (wait_cfg_unguarded sw) eqn:G; [right; left; auto|left; unfold fail_start; cbn; lia].
     + split; [split; [auto|reflexivity]|]. intros a [].
+  - split; [split; [auto|reflexivity]|]. intros a [].
 Qed.
 
 (* when a pending Start returns: Ok exactly if the plugin got configured, on a live connection *)
@@ -160,13 +167,14 @@ Proof.
   destruct ph0; try discriminate; intros _; destruct a; cbn [step ph sconn];
     try (intros X; discriminate X);
     unfold fail_start, set_ph; projs; cbn zeta;
-    try (intros _; right; repeat split; reflexivity).
-  - destruct (conn_live conn0); [intros X; discriminate X|intros X; discriminate X].
-  - destruct (conn_live conn0); [|intros X; discriminate X]. intros _. right. repeat split.
-  - destruct (conn_live conn0) eqn:L; [|intros X; discriminate X]. intros _. left. cbn. repeat split. exact L.
-  - destruct (conn_live conn0); [|intros X; discriminate X]. intros _. right. repeat split.
-  - destruct (wait_cfg_unguarded sw); [|intros _; right; repeat split].
-    unfold emit_close; projs. destruct cli0; intros X; discriminate X.
+    try (intros _; right; repeat split; reflexivity);
+    repeat match goal with
+    | |- context [if ?b then _ else _] => destruct b eqn:?
+    end; projs;
+    try (intros X; discriminate X);
+    try (intros _; right; repeat split; reflexivity);
+    try (intros _; left; cbn; repeat split; assumption);
+    try (unfold emit_close; projs; destruct cli0; intros X; discriminate X).
 Qed.
 
 (* ---- the stuck state of the pinned code --------------------------------- *)
@@ -308,26 +316,27 @@ Qed.
 (* ---- C16_restart_works --------------------------------------------------- *)
 
 Lemma restart_works sw s :
-  dead_conn_reused sw = false -> wf sw s -> ph s = Idle ->
+  dead_conn_reused sw = false -> cfg_ok_unsent sw = false -> wf sw s -> ph s = Idle ->
   let s' := run sw s healthy_start in
   ph s' = Configured /\ started s' = true /\ last_start s' = Some ResOk /\
   gen s' = S (gen s) /\ sconn s' = CLive (S (gen s)) /\ cli_open s' = true /\
   hd_error (established s') = Some (gen s') /\ pending s' = pending s /\ fired s' = fired s.
 Proof.
-  intros D [_ _ _ Hconn _ _] P. rewrite P in Hconn. specialize (Hconn D).
+  intros D U [_ _ _ Hconn _ _] P. rewrite P in Hconn. specialize (Hconn D).
   destruct s as [gen0 st0 conn0 ph0 cli0 pend0 closer0 fired0 est0 wait0 last0]. projs. subst.
-  cbn. repeat split.
+  cbn. rewrite U. cbn. repeat split.
 Qed.
 
 (* ... also when the connection the failed Start left behind is still there but no Start failed
    after dialling: what holds for every setting of the switches *)
 Lemma restart_works_partial sw s :
-  ph s = Idle -> sconn s = CNone ->
+  cfg_ok_unsent sw = false -> ph s = Idle -> sconn s = CNone ->
   let s' := run sw s healthy_start in
   ph s' = Configured /\ started s' = true /\ last_start s' = Some ResOk /\ sconn s' = CLive (S (gen s)).
 Proof.
+  intros U.
   destruct s as [gen0 st0 conn0 ph0 cli0 pend0 closer0 fired0 est0 wait0 last0]. projs. intros -> ->.
-  cbn. repeat split.
+  cbn. rewrite U. cbn. repeat split.
 Qed.
 
 (* ---- C16_stale_notification_harmless -------------------------------------- *)
@@ -454,3 +463,33 @@ Lemma shared_session_stop_filtered :
   let s := run shared_session init (healthy_start ++ [AStop; IServeDone] ++ healthy_start) in
   ph s = Configured /\ memn 1 (pending s) = true /\ ph (settle shared_session s) = Configured.
 Proof. vm_compute. repeat split. Qed.
+
+(* the variant that omits the send on the rejection path: the stub refuses the mask, the runtime end keeps
+   the connection: Start is pending, nothing is enabled, and as long as the connection is not lost it
+   stays pending, holding the lock *)
+Lemma await_lost_step sw s a :
+  ph s = AwaitLost -> a <> EConnLost -> step sw s a = s.
+Proof.
+  destruct s as [gen0 st0 conn0 ph0 cli0 pend0 closer0 fired0 est0 wait0 last0]. projs. intros -> N.
+  destruct a; try reflexivity. contradiction.
+Qed.
+
+Lemma await_lost_run sw l : forall s, ph s = AwaitLost -> ~ In EConnLost l -> run sw s l = s.
+Proof.
+  unfold run. induction l as [|a r IH]; intros s P N; cbn [fold_left]; [reflexivity|].
+  rewrite (await_lost_step sw s a P) by (intros ->; apply N; left; reflexivity).
+  apply IH; [exact P|]. intros H. apply N. right. exact H.
+Qed.
+
+Lemma configure_result_unsent_refuted :
+  exists l, reachable reject_unsent (run reject_unsent init l) /\
+    let s := run reject_unsent init l in
+    start_pending s = true /\ enabled_env reject_unsent s = [] /\ conn_live (sconn s) = true /\
+    forall l', ~ In EConnLost l' ->
+      start_pending (run reject_unsent s l') = true /\ lock_free (run reject_unsent s l') = false.
+Proof.
+  exists (start_actions BCfgReject). split; [eexists; reflexivity|]. cbn zeta.
+  split; [reflexivity|]. split; [reflexivity|]. split; [reflexivity|]. intros l' N.
+  rewrite (await_lost_run reject_unsent l' (run reject_unsent init (start_actions BCfgReject)) eq_refl N).
+  split; reflexivity.
+Qed.
